@@ -141,3 +141,150 @@ def comparable_enote(text):
     pd = [p for p in pd_txt.split('@') if p != ''] if pd_txt != '' else []
     dec = [d for d in dec_txt.split('·') if d != ''] if sep else []
     return pd, dec
+
+
+# ---- annotated grid: the real unfiltered extended export + abstract knowledge + token categories from the tree -----------
+@dataclass
+class ACell:
+    text: str        # unfiltered eKern cell text (real export)
+    kind: str        # abstract kind
+    cat: str         # token category name read from the tree
+    spine: int
+    line: int
+    col: int
+    obj: object = None
+
+
+def annotate(doc, real_doc, ekern_text):
+    """-> list of rows of ACell, or None if the real export does not have the expected shape (C03's business)."""
+    exp = suppress(expected_rows(doc))
+    lines = ekern_text.split('\n')
+    if lines and lines[-1] == '':
+        lines = lines[:-1]
+    g = [ln.split('\t') for ln in lines] if ekern_text else []
+    if len(g) != len(exp) or any(len(a) != len(b) for a, b in zip(g, exp)):
+        return None
+    nonblank = [i for i, ln in enumerate(doc.lines) if ln.kind != 'b']
+    stage_of = {li: k + 1 for k, li in enumerate(nonblank)}
+    out = []
+    stages = real_doc.tree.stages
+    for erow, grow in zip(exp, g):
+        st = stages[stage_of[erow[0].line]]
+        if len(st) != len(erow):
+            return None
+        row = []
+        for e, t, node in zip(erow, grow, st):
+            row.append(ACell(t, e.kind, node.token.category.name, e.spine, e.line, e.col, e.obj))
+        out.append(row)
+    return out
+
+
+PLACEHOLDER = object()
+
+
+def filter_cell(c: ACell, selected):
+    """-> ('ph',) | ('verbatim', text) | ('note', pd, dec) | ('chord', [(pd, dec), ...])"""
+    if c.kind in ('note', 'rest'):
+        pd, dec = filter_enote(c.text, selected)
+        return ('note', pd, dec)
+    if c.kind == 'chord':
+        if 'CHORD' not in selected:
+            return ('ph',)
+        return ('chord', [filter_enote(p, selected) for p in c.text.split(' ')])
+    if c.cat in selected:
+        return ('verbatim', c.text)
+    return ('ph',)
+
+
+def fcell_nullness(fc):
+    """True: certainly null; False: certainly not; None: either (statement does not decide)."""
+    if fc[0] == 'ph':
+        return True
+    if fc[0] == 'verbatim':
+        return fc[1] in NULLS
+    if fc[0] == 'note':
+        return not fc[1] and not fc[2]
+    if fc[0] == 'chord':
+        if all(not pd and not dec for pd, dec in fc[1]):
+            return None
+        return False
+    return False
+
+
+def fcell_matches(fc, observed):
+    if fc[0] == 'ph':
+        return observed in NULLS
+    if fc[0] == 'verbatim':
+        return observed == fc[1]
+    if fc[0] == 'note':
+        pd, dec = comparable_enote(observed)
+        if not fc[1] and not fc[2]:
+            return observed in ('*', '.', '')
+        return (pd, dec) == (fc[1], fc[2])
+    if fc[0] == 'chord':
+        parts = observed.split(' ')
+        if len(parts) != len(fc[1]):
+            return False
+        for p, (pd, dec) in zip(parts, fc[1]):
+            opd, odec = comparable_enote(p)
+            if (opd, odec) != (pd, dec):
+                return False
+        return True
+    return False
+
+
+def filter_grid(agrid, selected):
+    """-> list of (row of filtered cells, nullness) where nullness in (True, False, None)."""
+    out = []
+    for row in agrid:
+        frow = [filter_cell(c, selected) for c in row]
+        ns = [fcell_nullness(f) for f in frow]
+        if all(n is True for n in ns):
+            nul = True
+        elif any(n is False for n in ns):
+            nul = False
+        else:
+            nul = None
+        out.append((frow, nul))
+    return out
+
+
+def match_filtered(fgrid, observed_grid):
+    """Greedy row matching; rows with nullness True must be absent, False present, None either.
+    -> None if it matches, else a description of the first disagreement."""
+    j = 0
+    for i, (frow, nul) in enumerate(fgrid):
+        if nul is True:
+            continue
+        if j < len(observed_grid) and len(observed_grid[j]) == len(frow) and \
+                all(fcell_matches(f, o) for f, o in zip(frow, observed_grid[j])):
+            j += 1
+            continue
+        if nul is None:
+            continue
+        got = observed_grid[j] if j < len(observed_grid) else '<end of export>'
+        return f'model row {i + 1} {describe_frow(frow)} vs exported line {j + 1}: {got}'
+    if j != len(observed_grid):
+        return f'exported line {j + 1} {observed_grid[j]} has no counterpart in the model (extra line)'
+    return None
+
+
+def describe_frow(frow):
+    out = []
+    for f in frow:
+        if f[0] == 'ph':
+            out.append('<placeholder>')
+        elif f[0] == 'verbatim':
+            out.append(f[1])
+        elif f[0] == 'note':
+            out.append('@'.join(f[1]) + ('·' + '·'.join(f[2]) if f[2] else ''))
+        else:
+            out.append(' '.join('@'.join(pd) + ('·' + '·'.join(dec) if dec else '') for pd, dec in f[1]))
+    return out
+
+
+def project_rows(rows, keep, spine_of=lambda c: c.spine):
+    out = []
+    for r in rows:
+        out.append([c for c in r if spine_of(c) in keep])
+    return out
